@@ -260,6 +260,41 @@ def check_units(ctx):
   ref_of = {"pct": f.params[1], "em": f.params[2], "c": f.params[3], "px": f.params[4]}
   root_relative = {"rh", "rw"}
   norm = lambda e: unparse(e).replace(" ", "")
+  # first by interpretation (any control structure: if-chain, table + loop): _compute_length applied to a source length of each
+  # unit and four distinguishable references
+  from fractions import Fraction as _F
+  from ..consteval import EnumMember as _EM, NotConst as _NC, Raised as _R
+  from ..rules.minieval import MiniEval
+  ce_ = ConstEval(ix)
+  unit = {n: _EM(units.qualname, n, ce_.try_ev(units.module, v, units)) for n, v in ix.enum_members(units)}
+  rec = lambda v, un: {"__record__": "LengthType", "value": v, "units": unit[un]}
+  refs = {"pct": rec(_F(7), "rh"), "em": rec(_F(11), "rh"), "c": rec(_F(13), "rw"), "px": rec(_F(17), "rw")}
+  decided = True
+  results = {}
+  for u in members:
+    source = rec(_F(3), u)
+    try:
+      results[u] = (source, MiniEval(ix).call(f, [source, refs["pct"], refs["em"], refs["c"], refs["px"]]))
+    except _R:
+      results[u] = (source, "raises")
+    except _NC:
+      decided = False
+      break
+  if decided:
+    for u in members:
+      key = f"{f.qualname}|unit {u}"
+      source, got = results[u]
+      if u in root_relative:
+        ctx.check(got is source or (isinstance(got, dict) and got.get("value") == _F(3) and got.get("units") == unit[u]), "DSP-units", key, ctx.where(f.module, f.node),
+                  "root-relative unit is returned unchanged (interpreted)", f"_compute_length rescales the root-relative unit {u}: returns {got}")
+        continue
+      ref = refs.get(u)
+      want_v = _F(3) * ref["value"] / (100 if u == "pct" else 1)
+      ok = isinstance(got, dict) and got.get("value") == want_v and got.get("units") == ref["units"]
+      ctx.check(ok, "DSP-units", key, ctx.where(f.module, f.node), f"{u}: value * reference{' / 100' if u == 'pct' else ''} in the reference's units (interpreted on sample lengths)",
+                f"interpreted with a source of 3{u} and the references pct=7rh, em=11rh, c=13rw, px=17rw, _compute_length returns {got if not isinstance(got, dict) else (got.get('value'), getattr(got.get('units'), 'name', got.get('units')))}; "
+                f"unit `{u}` must resolve to 3 x {ref['value']}{' / 100' if u == 'pct' else ''} in {ref['units'].name}")
+    return
   for u in members:
     key = f"{f.qualname}|unit {u}"
 
